@@ -118,6 +118,10 @@ def gen_block_table(g: G):
             else:
                 v = None if g.boolean(0.15) else g.pick(STR_VALS)
             rows.append([rid] + ([gk] if extra else []) + [lab, v])
+    if rows and "block_level_without_rows" not in g.closed and g.boolean(0.15):
+        # one control-table level has no rows at all (every record lacks it): its columns are all missing
+        gone = g.pick(labels)
+        rows = [r for r in rows if r[-2] != gone]
     if rows:
         rows = list(g.draw(st.permutations(rows)))
     rk = ["id"] + (["g"] if extra else [])
